@@ -349,7 +349,7 @@ func init() {
 						}
 					case string:
 						sid, ok := sidOf(v, nstr)
-						if a.isReal && ok && a.f == float64(sid) {
+						if a.isReal && ok && clampReal(a.f) == float64(sid) {
 							// a real operand holding an exact string id is accepted
 							break
 						}
